@@ -2146,8 +2146,11 @@ def __multi_arity_fn_to_py_ast(  # pylint: disable=too-many-locals
 
         with (
             ctx.new_symbol_table(arity_name, is_context_boundary=True),
+            # `recur` re-enters this arity (the trampoline wraps the arity function, not
+            # the dispatch function), so only a recur inside the variadic arity may
+            # splice its final seq argument into positional arguments
             ctx.new_recur_point(
-                arity.loop_id, RecurType.FN, is_variadic=node.is_variadic
+                arity.loop_id, RecurType.FN, is_variadic=arity.is_variadic
             ),
         ):
             # Allow named anonymous functions to recursively call themselves
